@@ -200,6 +200,17 @@ impl<'h> FindMatchesImpl<'h> {
         new_position
     }
 
+    /// Returns a copy of the bookkeeping state (verification hook).
+    #[cfg(feature = "verif_hooks")]
+    pub(crate) fn verif_state(&self) -> crate::verif::IterStateDump {
+        crate::verif::IterStateDump {
+            offset: self.offset,
+            last_position: self.last_position,
+            last_char: self.last_char,
+            line_offsets: self.line_offsets.clone(),
+        }
+    }
+
     /// Retrieve the total offset of the char indices iterator in bytes.
     pub(crate) fn offset(&self) -> usize {
         self.last_position + self.offset
